@@ -37,6 +37,9 @@ CONSTANTS Actors,      \* goroutines
           LoadLocks,   \* TRUE: Load takes the file lock                       (code: TRUE)
           SaveLocks,   \* TRUE: Save takes the file lock                       (code: TRUE)
           Reread,      \* TRUE: UpdateFullStatus re-reads the file under lock  (code: TRUE)
+          StatBeforeLock, \* TRUE: "is there a record to load?" is decided (os.Stat) BEFORE the file lock is taken (seeded
+                          \* defect c14-size-check-before-lock); FALSE: by Seek(0,2) on the locked, open file (code: FALSE)
+          FreshUpdates,   \* TRUE: updates may run before anybody has created the record (first updates race on an absent file)
           TruncFirst   \* TRUE: UpdateFullStatus truncates, then writes (the code before its repair);
                        \* FALSE: writes the new record in place, then cuts the file to its length (code: FALSE)
 
@@ -70,9 +73,10 @@ VARIABLES
   done,      \* ghost: number of completed counting updates
   doneBy,    \* ghost: [Actors -> Nat]
   torn,      \* ghost: [Actors -> BOOLEAN]  a completed read saw Empty
-  lost       \* ghost: BOOLEAN  a write was based on an older version than the one it replaced
+  lost,      \* ghost: BOOLEAN  a write was based on an older version than the one it replaced
+  sawRec     \* [Actors -> BOOLEAN]  result of the "size > 0" test of the running update
 
-vars == <<file, fver, lock, olock, mem, rver, pc, kind, left, done, doneBy, torn, lost>>
+vars == <<file, fver, lock, olock, mem, rver, pc, kind, left, done, doneBy, torn, lost, sawRec>>
 
 Init ==
   /\ file = Absent /\ fver = 0 /\ lock = None
@@ -85,6 +89,7 @@ Init ==
   /\ done = 0 /\ doneBy = [a \in Actors |-> 0]
   /\ torn = [a \in Actors |-> FALSE]
   /\ lost = FALSE
+  /\ sawRec = [a \in Actors |-> FALSE]
 
 Created == fver > 0            \* Save has completed at least once: the unit is visible to others
 
@@ -110,24 +115,26 @@ Release(a) ==   \* deferred unlockStatusFile, then statusLock.Unlock()
 
 \* ---------------------------------------------------------------- UpdateFullStatus
 UFS_Begin(a, k) ==
-  /\ Created
+  /\ Created \/ FreshUpdates
   /\ ObjLock(a, "u_want")
   /\ kind' = [kind EXCEPT ![a] = k]
+  /\ sawRec' = [sawRec EXCEPT ![a] = IsRec(file)]       \* (used only when StatBeforeLock)
   /\ UNCHANGED <<file, fver, lock, mem, rver, done, doneBy, torn, lost>>
 
 UFS_Lock(a) ==
   /\ FLock(a, "u_want", "u_locked")
-  /\ UNCHANGED <<file, fver, olock, mem, rver, kind, left, done, doneBy, torn, lost>>
+  /\ UNCHANGED <<file, fver, olock, mem, rver, kind, left, done, doneBy, torn, lost, sawRec>>
 
 \* size := Seek(0,2); if size > 0 { loadFromFile }  - an empty or new file keeps the in-memory copy
 \* m0 = the in-memory copy the object holds when nothing is loaded
 UFS_ReadC(a, m0) ==
   /\ pc[a] = "u_locked"
-  /\ IF Reread /\ IsRec(file)
+  \* size := Seek(0,2) on the locked file - one step with the load, inside the lock
+  /\ IF Reread /\ (IF StatBeforeLock THEN sawRec[a] /\ IsRec(file) ELSE IsRec(file))
        THEN mem' = [mem EXCEPT ![ObjOf[a]] = file] /\ rver' = [rver EXCEPT ![a] = fver]
-       ELSE mem' = [mem EXCEPT ![ObjOf[a]] = m0] /\ rver' = [rver EXCEPT ![a] = IF Reread THEN fver ELSE @]
+       ELSE mem' = [mem EXCEPT ![ObjOf[a]] = m0] /\ rver' = [rver EXCEPT ![a] = IF Reread /\ ~IsRec(file) THEN fver ELSE @]
   /\ pc' = [pc EXCEPT ![a] = "u_read"]
-  /\ UNCHANGED <<file, fver, lock, olock, kind, left, done, doneBy, torn, lost>>
+  /\ UNCHANGED <<file, fver, lock, olock, kind, left, done, doneBy, torn, lost, sawRec>>
 
 UFS_Read(a) == UFS_ReadC(a, mem[ObjOf[a]])
 
@@ -136,7 +143,7 @@ UFS_Apply(a, h) ==
   /\ pc[a] = "u_read"
   /\ mem' = [mem EXCEPT ![ObjOf[a]] = IF kind[a] = "inc" THEN SuccInc(@, a, h) ELSE SuccBlind(@, a, h)]
   /\ pc' = [pc EXCEPT ![a] = "u_applied"]
-  /\ UNCHANGED <<file, fver, lock, olock, rver, kind, left, done, doneBy, torn, lost>>
+  /\ UNCHANGED <<file, fver, lock, olock, rver, kind, left, done, doneBy, torn, lost, sawRec>>
 
 \* before the repair: file.Truncate(0) ahead of the write - the file is empty in between;
 \* since: file.Truncate(length of the new record) after the write - a stale tail behind the first JSON value is cut,
@@ -144,7 +151,7 @@ UFS_Apply(a, h) ==
 UFS_Trunc(a) ==
   /\ IF TruncFirst THEN pc[a] = "u_applied" /\ file' = Empty /\ pc' = [pc EXCEPT ![a] = "u_truncd"]
                    ELSE pc[a] = "u_wrote" /\ UNCHANGED file /\ pc' = [pc EXCEPT ![a] = "u_written"]
-  /\ UNCHANGED <<fver, lock, olock, mem, rver, kind, left, done, doneBy, torn, lost>>
+  /\ UNCHANGED <<fver, lock, olock, mem, rver, kind, left, done, doneBy, torn, lost, sawRec>>
 
 \* saveToFile(file)
 UFS_Write(a) ==
@@ -154,24 +161,24 @@ UFS_Write(a) ==
   /\ lost' = (lost \/ rver[a] # fver)
   /\ IF kind[a] = "inc"
        THEN done' = done + 1 /\ doneBy' = [doneBy EXCEPT ![a] = @ + 1]
-       ELSE UNCHANGED <<done, doneBy>>
+       ELSE UNCHANGED <<done, doneBy, sawRec>>
   /\ pc' = [pc EXCEPT ![a] = IF TruncFirst THEN "u_written" ELSE "u_wrote"]
-  /\ UNCHANGED <<lock, olock, mem, rver, kind, left, torn>>
+  /\ UNCHANGED <<lock, olock, mem, rver, kind, left, torn, sawRec>>
 
 UFS_Unlock(a) ==
   /\ pc[a] = "u_written"
   /\ Release(a)
-  /\ UNCHANGED <<file, fver, mem, rver, kind, left, done, doneBy, torn, lost>>
+  /\ UNCHANGED <<file, fver, mem, rver, kind, left, done, doneBy, torn, lost, sawRec>>
 
 \* ---------------------------------------------------------------- Load
 Load_Begin(a) ==
   /\ ObjLock(a, "l_want")
-  /\ UNCHANGED <<file, fver, lock, mem, rver, kind, done, doneBy, torn, lost>>
+  /\ UNCHANGED <<file, fver, lock, mem, rver, kind, done, doneBy, torn, lost, sawRec>>
 
 Load_Lock(a) ==
   /\ IF LoadLocks THEN FLock(a, "l_want", "l_locked")
                   ELSE pc[a] = "l_want" /\ pc' = [pc EXCEPT ![a] = "l_locked"] /\ UNCHANGED lock
-  /\ UNCHANGED <<file, fver, olock, mem, rver, kind, left, done, doneBy, torn, lost>>
+  /\ UNCHANGED <<file, fver, olock, mem, rver, kind, left, done, doneBy, torn, lost, sawRec>>
 
 \* os.Open + ReadAll + Unmarshal: ENOENT when Absent (an error, not a torn read), parse error when Empty
 Load_Read(a) ==
@@ -179,17 +186,17 @@ Load_Read(a) ==
   /\ IF IsRec(file) THEN mem' = [mem EXCEPT ![ObjOf[a]] = file] ELSE UNCHANGED mem
   /\ torn' = [torn EXCEPT ![a] = @ \/ file = Empty]
   /\ pc' = [pc EXCEPT ![a] = "l_read"]
-  /\ UNCHANGED <<file, fver, lock, olock, rver, kind, left, done, doneBy, lost>>
+  /\ UNCHANGED <<file, fver, lock, olock, rver, kind, left, done, doneBy, lost, sawRec>>
 
 Load_Unlock(a) ==
   /\ pc[a] = "l_read"
   /\ Release(a)
-  /\ UNCHANGED <<file, fver, mem, rver, kind, left, done, doneBy, torn, lost>>
+  /\ UNCHANGED <<file, fver, mem, rver, kind, left, done, doneBy, torn, lost, sawRec>>
 
 \* ---------------------------------------------------------------- Save (AllocateUnit: before the unit is visible)
 Save_Enter(a) ==
   /\ ObjLock(a, "s_want")      \* (read side of statusLock in the code; the creator is alone on its object)
-  /\ UNCHANGED <<file, fver, lock, mem, rver, kind, done, doneBy, torn, lost>>
+  /\ UNCHANGED <<file, fver, lock, mem, rver, kind, done, doneBy, torn, lost, sawRec>>
 
 \* A Save is a blind write: the design uses it only to create the record, before the unit is visible.
 Save_Begin(a) == a = Creator /\ ~Created /\ Save_Enter(a)
@@ -197,28 +204,28 @@ Save_Begin(a) == a = Creator /\ ~Created /\ Save_Enter(a)
 Save_Lock(a) ==
   /\ IF SaveLocks THEN FLock(a, "s_want", "s_locked")
                   ELSE pc[a] = "s_want" /\ pc' = [pc EXCEPT ![a] = "s_locked"] /\ UNCHANGED lock
-  /\ UNCHANGED <<file, fver, olock, mem, rver, kind, left, done, doneBy, torn, lost>>
+  /\ UNCHANGED <<file, fver, olock, mem, rver, kind, left, done, doneBy, torn, lost, sawRec>>
 
 \* os.OpenFile(O_CREATE|O_WRONLY|O_TRUNC)
 Save_Trunc(a) ==
   /\ pc[a] = "s_locked"
   /\ file' = Empty
   /\ pc' = [pc EXCEPT ![a] = "s_truncd"]
-  /\ UNCHANGED <<fver, lock, olock, mem, rver, kind, left, done, doneBy, torn, lost>>
+  /\ UNCHANGED <<fver, lock, olock, mem, rver, kind, left, done, doneBy, torn, lost, sawRec>>
 
 Save_WriteC(a, c) ==
   /\ pc[a] = "s_truncd"
   /\ file' = c
   /\ fver' = fver + 1
   /\ pc' = [pc EXCEPT ![a] = "s_written"]
-  /\ UNCHANGED <<lock, olock, mem, rver, kind, left, done, doneBy, torn, lost>>
+  /\ UNCHANGED <<lock, olock, mem, rver, kind, left, done, doneBy, torn, lost, sawRec>>
 
 Save_Write(a) == Save_WriteC(a, mem[ObjOf[a]])
 
 Save_Unlock(a) ==
   /\ pc[a] = "s_written"
   /\ Release(a)
-  /\ UNCHANGED <<file, fver, mem, rver, kind, left, done, doneBy, torn, lost>>
+  /\ UNCHANGED <<file, fver, mem, rver, kind, left, done, doneBy, torn, lost, sawRec>>
 
 \* ----------------------------------------------------------------
 Step(a) ==
